@@ -35,7 +35,12 @@ class EqValue(GenericValue):
                     self._new_value = ex.value
                     break
 
-        return self._return(self._old_value == other, self._new_value == other)
+        # the merged new value is compared first: nested snapshots are matched
+        # with their aligned counterpart (the old value can only be compared
+        # position by position) and record the first value they are compared with
+        new_result = self._new_value == other
+
+        return self._return(self._old_value == other, new_result)
 
     def _new_code(self):
         return self._file._value_to_code(self._new_value)
